@@ -216,6 +216,8 @@ func checkC16(c *Ctx) {
 	r.Rule("R16b", "no unbounded loop: every for statement in generator packages is a range (or a bounded induction)", 8)
 	r.Rule("R16d", "visited sets are keyed injectively (full name or descriptor pointer)", 2)
 	visitedKeysInjective(c, "R16d", nil)
+	r.Rule("R16e", "a path-scoped visited mark is removed only after it was set (never ahead of the entry test)", 1)
+	visitedUnmarkAfterMark(c, "R16e")
 	r.Rule("R16c-panic", "no panic/log.Fatal/os.Exit on a path that depends on a well-formed request", 2)
 	r.Rule("R16c-nil", "every dereference of Field.Message/Enum/Oneof is dominated by a guard establishing it is non-nil", 30)
 	r.Rule("R16c-index", "constant indexes into descriptor-derived slices are dominated by a length / IsMap guard", 5)
@@ -927,4 +929,47 @@ func visitedKeysInjective(c *Ctx, rid string, only func(fn *types.Func) bool) {
 		}
 	}
 	r.Count("visited sets whose key was classified", n)
+}
+
+// visitedUnmarkAfterMark: a path-scoped visited set is unmarked only by the activation that marked it: a
+// `defer delete(visited, key)` (or a plain delete) registered ahead of the entry test also runs when the test
+// finds the key and returns — it removes the ANCESTOR's mark, and a message with two references to itself is
+// expanded without bound.
+func visitedUnmarkAfterMark(c *Ctx, rid string) {
+	r := c.R
+	n := 0
+	for _, comp := range c.sccs() {
+		if !isRepoGenPkg(comp[0]) {
+			continue
+		}
+		for _, f := range comp {
+			tested, ins, vdesc := c.visitedGuard(f)
+			if !tested || len(ins) == 0 {
+				continue
+			}
+			decl := c.P.Decls[f]
+			mapName := vdesc[:strings.Index(vdesc, "[")]
+			first := ins[0]
+			for _, p := range ins {
+				if p < first {
+					first = p
+				}
+			}
+			ast.Inspect(decl.Body, func(nd ast.Node) bool {
+				call, ok := nd.(*ast.CallExpr)
+				if !ok {
+					return true
+				}
+				id, ok := call.Fun.(*ast.Ident)
+				if !ok || id.Name != "delete" || len(call.Args) != 2 || types.ExprString(call.Args[0]) != mapName {
+					return true
+				}
+				n++
+				r.Check(call.Pos() > first, rid, FuncName(f)+": the visited mark "+vdesc+" is removed only after it was set", c.P.Pos(call.Pos()),
+					fmt.Sprintf("%s removes %s (at %s) ahead of the statement that sets it: when the entry test finds the key and returns, the removal still runs and deletes the mark of the activation further up the stack, so the recursion is no longer bounded for a message that refers to itself twice", FuncName(f), vdesc, c.P.Pos(call.Pos())))
+				return true
+			})
+		}
+	}
+	r.Count("visited-set removals checked", n)
 }
